@@ -5,11 +5,35 @@ import json, os
 ROOT = os.path.dirname(os.path.dirname(os.path.abspath(__file__)))
 ALL = ["C%02d" % i for i in range(1, 21)]
 
+NOTE_COMMON = ("Trusted: Coq 8.16.1 kernel + vm_compute; extraction (ExtrOcamlBasic only) + ocaml/driver; tools/translate.py (probe tables); "
+               "C++ harness built from /repo working tree with g++ ASan/UBSan -ffp-contract=off; Python generators/oracles. "
+               "The Gallina model is hand-written and tied to the code by the correspondence run of this check and by the regenerated tables (GenAgree). ")
+
 CLAIMED = {
+ "C01": dict(
+   technique="Coq proof of completeness of the reader model for the RFC 8259 grammar (mutual induction on a depth-indexed grammar relation) + differential run model vs C++ + Python json oracle",
+   text="C01_valid_json_denotes: every text of the RFC 8259 grammar (Spec/Rfc8259.v: any whitespace, any escape spelling incl. surrogate pairs, any number spelling, any key set) whose syntactic depth is within the limit is accepted by the reader model and yields the value the grammar assigns (order, UTF-8 strings, first-position/last-value for repeated keys; number leaves = parseNumber, see C12). C01_value_any_context gives the same inside any context. The model is compared with the rebuilt library on thousands of grammar-generated texts per run (dirty destination), and the library's documents are checked against Python's json with exact rational arithmetic.",
+   note=NOTE_COMMON + "No axioms. Memory is assumed available (NoMemory not modelled at this level). Float accuracy of number leaves is C12's subject.",
+   design="§6 C01"),
+ "C02": dict(
+   technique="Coq proof that the serializer model's output reads back to the document (induction), integer printing digit-exact, buffer prefix law + differential run on 5 destinations and all capacities + Python json oracle",
+   text="C02_text_denotes_document / C02_pretty_denotes_same: for float-free documents the compact and the pretty text both read back (through the reader proved complete for RFC 8259) to exactly the document; C02_integers_digit_exact, C02_negative_integers; C02_bounded_buffer: first min(n,len) bytes, count, NUL iff len<n; C02_string_bytes_preserved. Floats: printing model is bit-exact against the library (SpecFloat) and checked against C12's tolerance by the oracle. The library is run on std::string, ostream, custom writer, Print, Arduino String and caller buffers of every capacity 0..len+2 with guard bytes.",
+   note=NOTE_COMMON + "No axioms. Print/String are the mocks of extras/tests/Helpers. Floating-point leaves are covered by correspondence + oracle, not by a theorem (see C12).",
+   design="§6 C02"),
+ "C15": dict(
+   technique="Coq proofs by induction on the nesting budget (the model is structurally recursive on it) + differential run on towers for all limits + oracle on TooDeep position",
+   text="C15_ok_nesting (Ok => nesting <= L, any input/filter/config), C15_limit_only_causes_TooDeep(+_skip) (a run not ending in TooDeep is unchanged under any larger limit: the limit has no other effect), C15_tower_refused(+_in_skipped_part) (the (L+1)-th opener is refused when met, nothing after it is read), C15_within_limit_accepted. Recursion depth <= L+1 is the structural recursion of the definition itself. Towers of [ {\"a\": 0x91 0x81 array16/32 map16/32, kept and filter-discarded, up to 10^4 openers, are run on the library for many L.",
+   note=NOTE_COMMON + "No axioms. Stack BYTES per frame are a compiler fact: the theorem bounds the number of nested calls; MessagePack depth theorems are not yet in (correspondence only).",
+   design="§6 C15"),
+ "C16": dict(
+   technique="Coq proof (corollary of reader completeness: post-state = exactly the unread rest, independent of it) + differential run of successive calls on std::istream and custom reader",
+   text="C16_consumes_exactly_its_value: after leading whitespace and a value of the grammar the reader's unread stream is exactly what followed (nothing latched for string/literal/array/object; for a number the one byte it looked at); C16_result_independent_of_rest. Sequences of 1-6 JSON documents with all separators and back-to-back MessagePack objects are run through successive calls on istringstream (tellg) and a byte-counting reader; positions and documents are checked against independent oracles.",
+   note=NOTE_COMMON + "No axioms. The MessagePack half is tied by correspondence; its theorem (mp_roundtrip) is in progress.",
+   design="§6 C16"),
  "C17": dict(
    technique="Coq proof (complete finite sweeps by vm_compute lifted to forall + induction on the string) over a Gallina model; model tied to source by regenerated leaf tables (GenAgree) and exhaustive differential run of extracted model vs C++",
    text="Theorems C17_utf8_all (all 1 114 112 code points), C17_bmp / C17_pairs (every escape spelling, any position), C17_roundtrip (every byte string) and C17_only_named are proved in Coq about the model of Utf16/Utf8/EscapeSequence/parseQuotedString/writeString; C17_source_agrees ties the leaf functions to tables regenerated from the current source over their complete domains; the extracted model and the rebuilt library are compared on all 65536 code units, all byte pairs, and (thorough) all 1024x1024 surrogate pairs and all code points, with Python's UTF-8 codec as independent oracle.",
-   note="Trusted: Coq kernel + vm_compute, extraction (ExtrOcamlBasic), OCaml driver, translate.py probe, harness, g++ ASan/UBSan build. Model of the string reader is hand written and tied by correspondence (exhaustive on the finite domains of the property). No axioms.",
+   note=NOTE_COMMON + "No axioms.",
    design="§6 C17"),
 }
 
